@@ -13,7 +13,7 @@ func init() {
 }
 
 func getIntField(L *LState, tb *LTable, key string, v int) int {
-	ret := tb.RawGetString(key)
+	ret := L.GetField(tb, key) // t[key]: an __index metamethod supplies inherited fields
 
 	switch lv := ret.(type) {
 	case LNumber:
@@ -32,7 +32,7 @@ func getIntField(L *LState, tb *LTable, key string, v int) int {
 }
 
 func getBoolField(L *LState, tb *LTable, key string, v bool) bool {
-	ret := tb.RawGetString(key)
+	ret := L.GetField(tb, key) // t[key]: an __index metamethod supplies inherited fields
 	if lb, ok := ret.(LBool); ok {
 		return bool(lb)
 	}
